@@ -47,7 +47,11 @@ pub fn herr<T>(s: impl Into<String>) -> HResult<T> {
 
 impl Step {
     pub fn new(kind: &str, name: &str, args: Vec<Arg>) -> Step {
-        Step { kind: kind.into(), name: name.into(), args }
+        Step {
+            kind: kind.into(),
+            name: name.into(),
+            args,
+        }
     }
     pub fn op(name: &str, args: Vec<Arg>) -> Step {
         Step::new("op", name, args)
@@ -55,34 +59,49 @@ impl Step {
     pub fn int(&self, i: usize) -> HResult<i128> {
         match self.args.get(i) {
             Some(Arg::I(v)) => Ok(*v),
-            other => herr(format!("step {} {}: arg {} should be int, got {:?}", self.kind, self.name, i, other)),
+            other => herr(format!(
+                "step {} {}: arg {} should be int, got {:?}",
+                self.kind, self.name, i, other
+            )),
         }
     }
     pub fn i64(&self, i: usize) -> HResult<i64> {
-        i64::try_from(self.int(i)?).map_err(|_| HarnessError(format!("step {}: arg {} out of i64 range", self.name, i)))
+        i64::try_from(self.int(i)?)
+            .map_err(|_| HarnessError(format!("step {}: arg {} out of i64 range", self.name, i)))
     }
     pub fn u64(&self, i: usize) -> HResult<u64> {
-        u64::try_from(self.int(i)?).map_err(|_| HarnessError(format!("step {}: arg {} out of u64 range", self.name, i)))
+        u64::try_from(self.int(i)?)
+            .map_err(|_| HarnessError(format!("step {}: arg {} out of u64 range", self.name, i)))
     }
     pub fn usize(&self, i: usize) -> HResult<usize> {
-        usize::try_from(self.int(i)?).map_err(|_| HarnessError(format!("step {}: arg {} out of usize range", self.name, i)))
+        usize::try_from(self.int(i)?)
+            .map_err(|_| HarnessError(format!("step {}: arg {} out of usize range", self.name, i)))
     }
     pub fn bytes(&self, i: usize) -> HResult<&[u8]> {
         match self.args.get(i) {
             Some(Arg::B(v)) => Ok(v),
-            other => herr(format!("step {} {}: arg {} should be bytes, got {:?}", self.kind, self.name, i, other)),
+            other => herr(format!(
+                "step {} {}: arg {} should be bytes, got {:?}",
+                self.kind, self.name, i, other
+            )),
         }
     }
     pub fn text(&self, i: usize) -> HResult<&str> {
         match self.args.get(i) {
             Some(Arg::T(v)) => Ok(v),
-            other => herr(format!("step {} {}: arg {} should be text, got {:?}", self.kind, self.name, i, other)),
+            other => herr(format!(
+                "step {} {}: arg {} should be text, got {:?}",
+                self.kind, self.name, i, other
+            )),
         }
     }
     pub fn sym(&self, i: usize) -> HResult<&str> {
         match self.args.get(i) {
             Some(Arg::S(v)) => Ok(v),
-            other => herr(format!("step {} {}: arg {} should be symbol, got {:?}", self.kind, self.name, i, other)),
+            other => herr(format!(
+                "step {} {}: arg {} should be symbol, got {:?}",
+                self.kind, self.name, i, other
+            )),
         }
     }
 
@@ -124,8 +143,12 @@ impl Step {
     fn parse(line: &str) -> HResult<Step> {
         let mut it = line.split(' ');
         let _ = it.next(); // "step"
-        let kind = it.next().ok_or_else(|| HarnessError("step without kind".into()))?;
-        let name = it.next().ok_or_else(|| HarnessError("step without name".into()))?;
+        let kind = it
+            .next()
+            .ok_or_else(|| HarnessError("step without kind".into()))?;
+        let name = it
+            .next()
+            .ok_or_else(|| HarnessError("step without name".into()))?;
         let mut args = Vec::new();
         for tok in it {
             if tok.is_empty() {
@@ -133,30 +156,49 @@ impl Step {
             }
             let (t, v) = tok.split_at(2.min(tok.len()));
             let a = match t {
-                "i:" => Arg::I(v.parse::<i128>().map_err(|_| HarnessError(format!("bad int {}", v)))?),
+                "i:" => Arg::I(
+                    v.parse::<i128>()
+                        .map_err(|_| HarnessError(format!("bad int {}", v)))?,
+                ),
                 "b:" => Arg::B(unhex(v).ok_or_else(|| HarnessError(format!("bad hex {}", v)))?),
                 "t:" => Arg::T(
-                    String::from_utf8(unhex(v).ok_or_else(|| HarnessError(format!("bad hex {}", v)))?)
-                        .map_err(|_| HarnessError("bad utf-8 in text arg".into()))?,
+                    String::from_utf8(
+                        unhex(v).ok_or_else(|| HarnessError(format!("bad hex {}", v)))?,
+                    )
+                    .map_err(|_| HarnessError("bad utf-8 in text arg".into()))?,
                 ),
                 "s:" => Arg::S(v.to_string()),
                 _ => return herr(format!("bad arg token {}", tok)),
             };
             args.push(a);
         }
-        Ok(Step { kind: kind.into(), name: name.into(), args })
+        Ok(Step {
+            kind: kind.into(),
+            name: name.into(),
+            args,
+        })
     }
 }
 
 impl Trace {
     pub fn new(property: &str, seed: u64, run: u64) -> Trace {
-        Trace { property: property.into(), seed, run, meta: vec![], steps: vec![] }
+        Trace {
+            property: property.into(),
+            seed,
+            run,
+            meta: vec![],
+            steps: vec![],
+        }
     }
     pub fn meta(&self, k: &str) -> Option<&str> {
-        self.meta.iter().find(|(kk, _)| kk == k).map(|(_, v)| v.as_str())
+        self.meta
+            .iter()
+            .find(|(kk, _)| kk == k)
+            .map(|(_, v)| v.as_str())
     }
     pub fn meta_req(&self, k: &str) -> HResult<&str> {
-        self.meta(k).ok_or_else(|| HarnessError(format!("trace lacks meta key {}", k)))
+        self.meta(k)
+            .ok_or_else(|| HarnessError(format!("trace lacks meta key {}", k)))
     }
     pub fn set_meta(&mut self, k: &str, v: impl Into<String>) {
         let v = v.into();
@@ -206,7 +248,9 @@ impl Trace {
             if line.starts_with("step ") {
                 t.steps.push(Step::parse(line)?);
             } else if let Some(rest) = line.strip_prefix("meta ") {
-                let (k, v) = rest.split_once('=').ok_or_else(|| HarnessError(format!("bad meta line {}", line)))?;
+                let (k, v) = rest
+                    .split_once('=')
+                    .ok_or_else(|| HarnessError(format!("bad meta line {}", line)))?;
                 t.meta.push((k.into(), v.into()));
             } else if let Some((k, v)) = line.split_once('=') {
                 match k {
@@ -264,9 +308,18 @@ impl Trace {
     }
 
     pub fn summary(&self) -> String {
-        let meta: Vec<String> = self.meta.iter().map(|(k, v)| format!("{}={}", k, v)).collect();
+        let meta: Vec<String> = self
+            .meta
+            .iter()
+            .map(|(k, v)| format!("{}={}", k, v))
+            .collect();
         let steps: Vec<String> = self.steps.iter().map(|s| s.summary()).collect();
-        format!("run {} [{}] {}", self.run, meta.join(" "), steps.join(" ; "))
+        format!(
+            "run {} [{}] {}",
+            self.run,
+            meta.join(" "),
+            steps.join(" ; ")
+        )
     }
 }
 
@@ -282,7 +335,11 @@ pub struct Violation {
 
 impl Violation {
     pub fn new(invariant: impl Into<String>, detail: impl Into<String>) -> Violation {
-        Violation { invariant: invariant.into(), detail: detail.into(), narrowed: None }
+        Violation {
+            invariant: invariant.into(),
+            detail: detail.into(),
+            narrowed: None,
+        }
     }
     pub fn narrowed(mut self, t: Trace) -> Violation {
         self.narrowed = Some(Box::new(t));
